@@ -254,12 +254,14 @@ class DelAttrMethod(MethodDescriptor):
 
             attr_spec = self.__spec_class__.attrs.get(attr)
 
-            if (
-                force
-                or not attr_spec
-                or attr_spec.default is MISSING
-                or attr_spec.is_masked
-            ):
+            # Look up the default a new instance of this class would receive
+            # (plain default, default factory result or an override on a plain
+            # subclass); it is mutate-safe (freshly copied or constructed).
+            default = MISSING
+            if attr_spec and not force and not attr_spec.is_masked:
+                default = attr_spec.lookup_default_value(self.__class__)
+
+            if default is MISSING:
                 self.__delattr__.__raw__(self, attr)
                 if not skip_invalidation:
                     invalidate_attrs(self, attr)
@@ -268,7 +270,7 @@ class DelAttrMethod(MethodDescriptor):
             return mutate_attr(
                 obj=self,
                 attr=attr,
-                value=protect_via_deepcopy(attr_spec.default),  # handle default factory
+                value=default,
                 inplace=True,
                 force=True,
                 skip_invalidation=skip_invalidation,
